@@ -433,6 +433,9 @@ theorem interior_any_pad_mean1 (π : List Rat → Rat) (h : Nat) (x : List Rat) 
     eraseIdx_centre _ _ _ h (slice_length_of_le _ _ _ (by omega))]
   simp [specMeanCell1, meanCell, at1_eq x i hlt]
 
+/-- pixel 2 of a six-sample integer signal, window 5 -/
+example : (2 : Nat) ≤ 2 ∧ 2 + 2 < ([1, 2, 4, 7, 5, 3] : List Rat).length := by decide
+
 theorem interior_any_pad_mean2 (π : List Rat → Rat) (h0 h1 n1 : Nat) (x : List (List Rat)) (i j : Nat)
     (hrect : ∀ r ∈ x, r.length = n1)
     (hi : h0 ≤ i) (hn : i + h0 < x.length) (hj : h1 ≤ j) (hm : j + h1 < n1) :
@@ -443,6 +446,10 @@ theorem interior_any_pad_mean2 (π : List Rat → Rat) (h0 h1 n1 : Nat) (x : Lis
     window2_interior π h0 h1 i j n1 x hrect hi hn hj hm,
     maskCentre2_interior h0 h1 i j n1 x hrect hi hn hj hm]
   rfl
+
+/-- pixel (1, 2) of a 3×5 image, window 3×5 -/
+example : (∀ r ∈ ([[1, 2, 3, 4, 5], [6, 7, 8, 9, 10], [11, 12, 13, 14, 15]] : List (List Rat)), r.length = 5) ∧
+    (1 : Nat) ≤ 1 ∧ 1 + 1 < 3 ∧ (2 : Nat) ≤ 2 ∧ 2 + 2 < 5 := by decide
 
 /-- the rounded pad of an integer image: the window of pixel 1 of `[1, 2, 4, 7, 5, 3]` (window 5) starts
 with the pad value `rint (3/2) = 2`, the exact model has `3/2` there; pixel 2 sees neither -/
@@ -463,6 +470,7 @@ theorem interior_any_pad_median2 (π1 π2 : List Rat → Rat) (h0 h1 n1 : Nat) (
   medianCellsP2_interior π1 π2 h0 h1 i j n1 x hrect hi hn hj hm
 
 example : 2 * 1 ≤ 2 ∧ 2 + 2 * 1 < ([3, 1, 4, 1, 5] : List Rat).length := by decide
+example : 2 * 1 ≤ 2 ∧ 2 + 2 * 1 < 5 ∧ 2 * 2 ≤ 4 ∧ 4 + 2 * 2 < 9 := by decide
 
 /-! ## the constant clause for every arithmetic
 
@@ -512,6 +520,13 @@ theorem constant_unchanged_any_arithmetic2 (π μm : List Rat → Rat) (dec : Ra
     (hc : ∀ r ∈ x, ∀ v ∈ r, v = c) : rollingG2 π μm dec (2 * h0 + 1) (2 * h1 + 1) x = x :=
   rollingG2_const π μm dec N h0 h1 n1 x c hrect hh0 hn1 hN hπ hμ hc
 
+/-- a 3×5 window on a 4×6 image of 1/3, statistics required to be right for up to 15 copies -/
+example : (∀ r ∈ (List.replicate 4 (List.replicate 6 (1 / 3)) : List (List Rat)), r.length = 6) ∧
+    (2 * 1 + 1) * (2 * 2 + 1) ≤ 15 ∧ (∀ r ∈ (List.replicate 4 (List.replicate 6 (1 / 3)) : List (List Rat)), ∀ v ∈ r, v = 1 / 3) := by
+  refine ⟨?_, by decide, ?_⟩
+  · intro r hr; rw [List.eq_of_mem_replicate hr]; simp
+  · intro r hr v hv; rw [List.eq_of_mem_replicate hr] at hv; exact List.eq_of_mem_replicate hv
+
 /-- Rounded arithmetic, 1-D.  `fl` any rounding function that returns the numbers of the binary format
 (`p` significand bits, least exponent `emin`) unchanged; means are computed left to right with every
 addition and the division rounded (`flMean fl`); `dec` any outlier decision.  If all partial sums `j·c`,
@@ -522,6 +537,10 @@ theorem constant_unchanged_rounded1 (fl : Rat → Rat) (p : Nat) (emin : Int) (d
     rollingG1 (flMean fl) (flMean fl) dec (2 * h + 1) x = x :=
   rollingG1_const _ _ dec (2 * h + 1) h x c h1 (le_refl _)
     (flMean_fixesConst fl p emin _ c hfl hs) (flMean_fixesConst fl p emin _ c hfl hs) hc
+
+/-- binary64, window 7: `5/4` qualifies, `1/10` (as the double nearest to it) does not -/
+example : sumsExact 53 (-1074) (2 * 3 + 1) (5 / 4) = true ∧
+    sumsExact 53 (-1074) (2 * 3 + 1) (3602879701896397 / 36028797018963968) = false := by decide +kernel
 
 /-- Rounded arithmetic, 2-D, partial sums up to `(2h0+1)(2h1+1)` copies. -/
 theorem constant_unchanged_rounded2 (fl : Rat → Rat) (p : Nat) (emin : Int)
